@@ -17,6 +17,7 @@ type envModel struct {
 	writes     map[string]int
 	tokenOf    map[*value]tokenRef
 	nextDoc    int
+	docs       []*docToken
 	open       map[*value]*openFile
 	decoded    int
 	envVars    map[string]string
